@@ -959,6 +959,14 @@ class Crystal(object):
                 if u != 0:
                     super[1, 2] = -int(u)
                     modified = True
+                else:
+                    # pairwise reduced; the last condition is that a2 +- a0 +- a1 is not shorter than a2
+                    for s0, s1 in ((1, 1), (1, -1), (-1, 1), (-1, -1)):
+                        if asq[0, 0] + asq[1, 1] + 2 * (s0 * asq[0, 2] + s1 * asq[1, 2] + s0 * s1 * asq[0, 1]) \
+                                < -1e-8 * asq[2, 2]:
+                            super[0, 2], super[1, 2] = s0, s1
+                            modified = True
+                            break
 
         if not modified:
             return
